@@ -837,21 +837,23 @@ fn c13_from_epoch_secret() {
     core::mem::forget(r);
 }
 
-// a provider failure at any of the nine derivations is reported as CryptoProviderError
+// a provider failure at the first or at the last of the nine derivations is reported as
+// CryptoProviderError
 #[kani::proof]
 #[kani::stub(zeroize::optimization_barrier, noop_barrier)]
 #[kani::stub(std::hash::RandomState::new, fixed_random_state)]
 #[kani::stub(crate::group::secret_tree::SecretTree::new, recording_tree_new)]
 #[kani::unwind(82)]
 fn c13_from_epoch_secret_provider_error() {
-    let at: usize = kani::any();
-    kani::assume(at < 9);
-    let p = GhostProvider::failing_at(at);
     let epoch_secret = any_exact::<NH>();
-    let r = KeySchedule::from_epoch_secret(&p, &epoch_secret, TREE_SIZE);
-    assert!(is_provider_error(&r));
-    assert!(p.calls() == at + 1);
-    core::mem::forget(r);
+    for_each_bool(|last| {
+        let at = if last { 8 } else { 0 };
+        let p = GhostProvider::failing_at(at);
+        let r = KeySchedule::from_epoch_secret(&p, &epoch_secret, TREE_SIZE);
+        assert!(is_provider_error(&r));
+        assert!(p.calls() == at + 1);
+        core::mem::forget(r);
+    });
 }
 
 // ============================================================ 4. joiner / epoch / welcome
@@ -1121,46 +1123,50 @@ fn c13_welcome_secret() {
 // MLS-Exporter(Label, Context, Length) =
 //     ExpandWithLabel(DeriveSecret(exporter_secret, Label), "exported", Hash(Context), Length)
 // every Length 0..=65535, label of length 0..=4 (one harness per length), context of length
-// 0..=4 (symbolic bytes)
+// 0..=2 (symbolic bytes)
+fn export_secret_case(label: &[u8], context: &[u8]) {
+    let exporter = any_exact::<NH>();
+    let len: usize = kani::any();
+    kani::assume(len <= 0xffff);
+    let mut ks = KeySchedule::default();
+    ks.exporter_secret = Zeroizing::new(exporter.clone());
+    let p = GhostProvider::new();
+
+    let r = ks.export_secret(label, context, len, &p);
+    assert!(r.is_ok());
+    let o = r.ok().unwrap();
+    assert!(p.calls() == 3);
+    let d = p.find(Op::Expand, &exporter, &rfc_kdf_label(NH as u16, label, &[]), NH);
+    let h = p.find(Op::Hash, &[], context, 0);
+    assert!(d.is_some() && h.is_some());
+    let info = rfc_kdf_label(len as u16, b"exported", &out(h.unwrap(), HASH_LEN));
+    assert!(p.is(2, Op::Expand, &out(d.unwrap(), NH), &info, len));
+    assert!(o.len() == len);
+    let i: usize = kani::any();
+    kani::assume(i < len);
+    assert!(o[i] == 3);
+    core::mem::forget((o, ks));
+}
+
 macro_rules! export_secret_harness {
     ($($name:ident: $ll:literal),* $(,)?) => { $(
         #[kani::proof]
         #[kani::stub(zeroize::optimization_barrier, noop_barrier)]
         #[kani::unwind(82)]
         fn $name() {
-            let exporter = any_exact::<NH>();
-            let context = any_bytes::<4>();
             let label: [u8; $ll] = kani::any();
-            let len: usize = kani::any();
-            kani::assume(len <= 0xffff);
-            let mut ks = KeySchedule::default();
-            ks.exporter_secret = Zeroizing::new(exporter.clone());
-            let p = GhostProvider::new();
-
-            let r = ks.export_secret(&label, &context, len, &p);
-            assert!(r.is_ok());
-            let o = r.ok().unwrap();
-            assert!(p.calls() == 3);
-            let d = p.find(Op::Expand, &exporter, &rfc_kdf_label(NH as u16, &label, &[]), NH);
-            let h = p.find(Op::Hash, &[], &context, 0);
-            assert!(d.is_some() && h.is_some());
-            let info = rfc_kdf_label(len as u16, b"exported", &out(h.unwrap(), HASH_LEN));
-            assert!(p.is(2, Op::Expand, &out(d.unwrap(), NH), &info, len));
-            assert!(o.len() == len);
-            let i: usize = kani::any();
-            kani::assume(i < len);
-            assert!(o[i] == 3);
-            core::mem::forget((o, ks));
+            let c: [u8; 2] = kani::any();
+            for_each_prefix(&c, |context| export_secret_case(&label, context));
         }
     )* };
 }
 
 export_secret_harness!(
-    c13_export_secret_l0_bounded_4: 0,
-    c13_export_secret_l1_bounded_4: 1,
-    c13_export_secret_l2_bounded_4: 2,
-    c13_export_secret_l3_bounded_4: 3,
-    c13_export_secret_l4_bounded_4: 4,
+    c13_export_secret_l0_bounded_2: 0,
+    c13_export_secret_l1_bounded_2: 1,
+    c13_export_secret_l2_bounded_2: 2,
+    c13_export_secret_l3_bounded_2: 3,
+    c13_export_secret_l4_bounded_2: 4,
 );
 
 // a deleted exporter secret yields ExporterDeleted and no KDF call
